@@ -253,7 +253,7 @@ F(S, c) ==
          ELSE IF isEOF THEN Err(S, p, "regexeof")
          ELSE IF c = 92 THEN SetM(S, M("RXE"))
          ELSE S
-    [] m = "RXE" -> SetM(S, M("RXB"))
+    [] m = "RXE" -> IF isEOF THEN Err(S, p, "regexeof") ELSE SetM(S, M("RXB"))
     [] m = "DS" -> IF isNL THEN S      \* the text does not begin with a line break (the LF of a CRLF keyword line)
                    ELSE F(SetM(BeginEv(S, "T", p), M("DB")), c)
     [] m = "DB" ->
@@ -261,10 +261,11 @@ F(S, c) ==
          ELSE IF isEOF THEN EndEv(S, "T", p - 1)
          ELSE IF c = 40 THEN SetM(S, M("DBR"))
          ELSE F(SetM(S, M("DN")), c)
-    [] m = "DBR" -> IF isNL THEN SetM(S, M("DBRN")) ELSE S
+    [] m = "DBR" -> IF isEOF THEN Err(S, p, "desceof") ELSE IF isNL THEN SetM(S, M("DBRN")) ELSE S      \* "(" is never closed
     [] m = "DBRN" ->
          IF isWS \/ isNL THEN S
          ELSE IF c = 41 THEN SetM(EndEv(S, "T", p), M("EK"))
+         ELSE IF isEOF THEN Err(S, p, "desceof")
          ELSE SetM(S, M("DBR"))
     [] m = "DT" ->
          IF isNL THEN SetM(S, M("DN"))
@@ -343,6 +344,10 @@ WellFormed(S) ==
 
 \* an error lies inside the file (index = length is the position of end of file)
 ErrInside(S) == S.res = "err" => S.err.i >= 0 /\ S.err.i <= Len(S.tape)
+
+\* "well-bracketed": a scan which reaches the end of the file without an error has closed every lexeme it has begun
+\* (stated on the model, not copied from the code: the code has no such check at the end of the file)
+Closed(S) == S.res = "eof" => S.open = <<>>
 
 \* per directive: keyword, parameters, optional annotation, optional "(", optional body
 LexOrder(S) ==
